@@ -17,7 +17,7 @@ def run(R, job):
         if k < 0.3:
             return r.choice(ctx.texts)
         if k < 0.4:
-            return r.choice([0, 1, -3, 2.5, True, False])
+            return r.choice([0, 1, -3, 2.5, True, False, 0.0, ""])
         if k < 0.5:
             return None
         if k < 0.6:
@@ -29,7 +29,8 @@ def run(R, job):
         if k < 0.8:
             return ctx.reprobj("<r>")
         if k < 0.9:
-            return R.Junk(r.randint(0, 9)) if r.random() < 0.5 else r.choice([{"a": 1}, {1, 2}, object(), b"x"])
+            import decimal, fractions
+            return R.Junk(r.randint(0, 9)) if r.random() < 0.4 else r.choice([{"a": 1}, {1, 2}, object(), b"x", decimal.Decimal("1.5"), fractions.Fraction(1, 3), 2 + 3j, range(2), bytearray(b"y")])
         return core.TagList(r.choice(ctx.texts), 1)
 
     def arg(d):
@@ -72,7 +73,7 @@ def run(R, job):
         ref = []
         log = []
         for step in range(r.choice([1, 2, 3, 5, 8])):
-            op = r.choice(["append", "extend", "insert", "add", "radd", "iadd", "ctor", "tag.append", "tag.extend", "tag.insert", "slice", "mul"])
+            op = r.choice(["append", "extend", "insert", "add", "radd", "iadd", "ctor", "tag.append", "tag.extend", "tag.insert", "tag.ctor", "slice", "mul"])
             a = arg(2)
             distinct.add(op)
             before = list(tl.data)
@@ -118,6 +119,15 @@ def run(R, job):
                 elif op == "ctor":
                     ok = model(a, out); exp = ref + out
                     tl = core.TagList(tl, a)
+                elif op == "tag.ctor":
+                    # children given to the Tag constructor itself (falsy ones included: 0, "", False, HTML(""))
+                    more = [arg(1) for _ in range(r.choice([0, 1, 2]))] + [r.choice([0, "", False, 0.0, core.HTML("")])]
+                    ok = model(list(tl), out)
+                    ok = model(a, out) and ok
+                    for m_ in more:
+                        ok = model(m_, out) and ok
+                    exp = out
+                    tl = core.Tag("div", tl, a, *more).children
                 elif op.startswith("tag."):
                     t = core.Tag("div"); t.children = tl
                     ok = model(a, out)
